@@ -477,7 +477,7 @@ fn c10_q_exchange_matching_and_gate() {
 #[cfg_attr(kani, kani::unwind(8))]
 #[cfg_attr(kani, kani::stub(embassy_time::Instant::now, crate::verif_support::stub_instant_now))]
 #[cfg_attr(not(kani), test)]
-fn c10_x_exchange_matching_and_gate_5_slots() {
+fn c10_t_exchange_matching_and_gate_5_slots() {
     exchange_matching_and_gate::<5>();
 }
 
@@ -776,7 +776,7 @@ fn c20_q_eviction_choice() {
 #[cfg_attr(kani, kani::unwind(18))]
 #[cfg_attr(kani, kani::stub(embassy_time::Instant::now, crate::verif_support::stub_instant_now))]
 #[cfg_attr(not(kani), test)]
-fn c20_x_add_fails_iff_table_full() {
+fn c20_t_add_fails_iff_table_full() {
     let mut ss = Sessions::new();
     let n = any_usize();
     assume(n <= MAX_SESSIONS);
@@ -960,4 +960,53 @@ fn c03_q_rx_session_selection() {
         vassert!(!reserved, "ROLE:reserved-session-receives-nothing");
     }
     vassert!(hit == want, "ROLE:rx-session-selection-equals-reference");
+}
+
+// ==========================================================================================
+// C10 / C09 composed over two ends: a request from A's initiator exchange opens exactly one
+// responder exchange at B; B's answer carries the same exchange id with the initiator flag
+// cleared and the acknowledgement of A's counter, and at A it is delivered to the exchange
+// that sent the request (no new exchange), ending its retransmissions.
+// ==========================================================================================
+#[cfg_attr(kani, kani::proof)]
+#[cfg_attr(kani, kani::unwind(8))]
+#[cfg_attr(kani, kani::stub(embassy_time::Instant::now, crate::verif_support::stub_instant_now))]
+#[cfg_attr(not(kani), test)]
+fn c10_q_two_ends_request_response() {
+    let mut ssa = Sessions::new();
+    let mut ssb = Sessions::new();
+    let sa = fresh_case_session(&mut ssa);
+    let sb = fresh_case_session(&mut ssb);
+    assume(sa.msg_ctr < u32::MAX - 3 && sb.msg_ctr < u32::MAX - 3);
+    let eid = any_u16();
+    let ea = sa.add_exch(eid, Role::Initiator(Default::default())).unwrap();
+    // A -> B: request
+    let mut req = PacketHdr::new();
+    req.proto.set_reliable();
+    req.proto.proto_id = 1;
+    req.proto.proto_opcode = 2;
+    vok!(sa.pre_send(Some(ea), &mut req, None, None), "harness-setup-call-succeeds");
+    vassert!(req.proto.exch_id == eid && req.proto.is_initiator(), "ROLE:request-carries-its-exchange-id-and-the-initiator-flag");
+    let opened = sb.post_recv(&req);
+    vassert!(matches!(opened, Ok(true)), "ROLE:legitimate-initiator-message-opens-exchange-when-slot-free");
+    vassert!(count_exch(sb) == 1, "ROLE:new-exchange-occupies-one-slot");
+    let eb = sb.get_exch_for_rx(&req.proto);
+    vassert!(eb.is_some(), "ROLE:new-exchange-matches-its-opening-message");
+    // B -> A: answer on that exchange
+    let mut rsp = PacketHdr::new();
+    let rsp_reliable = any_bool();
+    if rsp_reliable {
+        rsp.proto.set_reliable();
+    }
+    rsp.proto.proto_id = 1;
+    rsp.proto.proto_opcode = 5;
+    vok!(sb.pre_send(eb, &mut rsp, None, None), "harness-setup-call-succeeds");
+    vassert!(rsp.proto.exch_id == eid && !rsp.proto.is_initiator(), "ROLE:answer-carries-the-exchange-id-with-the-initiator-flag-cleared");
+    vassert!(rsp.proto.get_ack() == Some(req.plain.ctr), "ROLE:answer-acknowledges-exactly-the-received-counter");
+    let delivered = sa.post_recv(&rsp);
+    vassert!(matches!(delivered, Ok(false)), "ROLE:answer-is-delivered-to-the-requesting-exchange(no new exchange)");
+    vassert!(count_exch(sa) == 1, "ROLE:delivery-to-existing-exchange-creates-none");
+    let still = sa.exchanges[ea].as_ref().unwrap().mrp.retrans.is_some();
+    vassert!(!still, "ROLE:matching-ack-ends-retransmission");
+    vcover!(rsp_reliable);
 }
